@@ -2,10 +2,12 @@
 
 PENDING = "not claimed in this build: the planned static rules (DESIGN.md §4) are not implemented and self-tested yet"
 
+AST = "repository-specific ast rule checking"
+
 
 def register(claim, na):
-    claim("C05", "ast rule checking: closed-predicate set comparison, traversal-completeness, link-pairing, refit, "
-                 "parallel-array bookkeeping, index-space and sentinel-guard dataflow over aabb_tree.py",
+    claim("C05", AST + ": closed-predicate set comparison, traversal-completeness, link-pairing, refit, parallel-array "
+                       "bookkeeping, index-space and sentinel-guard dataflow over aabb_tree.py",
           "Decides, for every input/history at once, the structural invariants of the AABB tree code: aabb_overlap is exactly "
           "the six closed comparisons (R-CLOSED); both stack traversals push both children of every overlapping branch, "
           "record each overlapping leaf once and apply no other filter (R-TRAVERSE); insert_leaf keeps parent/child links "
@@ -14,8 +16,51 @@ def register(claim, na):
           "parallel containers aligned and hands node-space indices to the compiled insertion (R-BOOKKEEP, R-INDEXSPACE); "
           "a sentinel root is never used as an index without a dominating comparison (R-SENTINEL). Sufficiency of these "
           "invariants for exact query answers is the textbook BVH argument and is not re-proved.", "DESIGN.md §4 C05")
-    for p in ["C01", "C02", "C03", "C04", "C06", "C07", "C08", "C09", "C10", "C11", "C12", "C13", "C14", "C15", "C16",
-              "C18", "C19", "C20"]:
+    claim("C07", AST + " + abstract interpretation of NumPy views (E1): alias-after-store, must-pass-through winding "
+                       "repair, Minkowski pairing, guard-dominates-store, loop exit discipline over epa.py",
+          "Decides structural necessary conditions of EPA's success contract: no read of a NumPy view after its source row "
+          "was overwritten (R-ALIAS), every face passes compute_normal and then the winding repair before it is selectable "
+          "and the repair is a real vertex swap with normal negation under dot(v0,n)<0 (R-WINDING), support points are "
+          "A-B support points (R-MINK), capacity checks dominate stores (R-GUARDSTORE), the success path returns "
+          "n*dot(new_point,n) under the convergence test and success is never reported on fall-through (R-MTV), loops are "
+          "capped/structural (R-LOOP). Does not decide minimality over all directions nor the 1e-6 residual gap.", "DESIGN.md §4 C07")
+    claim("C14", AST + " + abstract interpretation of array ndim/dtype/layout with per-class attribute join (E1)",
+          "Decides: (R-COHERENCE) update_pose consumes its pose and refreshes every attribute whose constructor value depends "
+          "on the pose-carrying constructor parameters, recomputing derived attributes with the constructor's own expression; "
+          "(R-ROUNDTRIP) pose-less shapes read every attribute from the pose slot collider2origin writes and refresh all of "
+          "them; (R-EAGER) every call from collider methods into compiled functions with explicit signatures is accepted for "
+          "the join of all values the attributes can hold after construction or update_pose with a C-contiguous pose - i.e. "
+          "'no later query raises'. Does not decide numerical equality of query results.", "DESIGN.md §4 C14")
+    claim("C15", AST + ": compaction-idiom, guard-dominates-store, force-direction and degenerate-polygon guards",
+          "Decides structural necessary conditions for well-formed contact polygons: kept half-planes / points are written at "
+          "the running counter so no unwritten np.empty row is returned (R-COMPACT), capacity checks precede stores "
+          "(R-GUARDSTORE), the force is a scalar times contact_plane_hnf[:3] (R-FORCEDIR), fewer than 3 vertices means no "
+          "intersection at all three stages and the plane is normalised after the zero-normal test and before its offset is "
+          "used (R-POLYGUARD). Does not decide that vertices lie on the plane / inside both tetrahedra, convexity, "
+          "non-negative pressure or order independence.", "DESIGN.md §4 C15")
+    claim("C16", AST + " + class-attribute resolution (E1): negation pairing, tuple-order flow, cache invalidation, "
+                       "sibling agreement of the two broad phases",
+          "Decides: f12 is built as the syntactic negation of f21 with torques about each body's own centre of mass and the "
+          "(wrench12, wrench21) order preserved through three functions (R-REACTION); every attribute read on a RigidBody / "
+          "ContactSurface receiver resolves (R-ATTR); methods that reassign mesh data reset all dependent caches "
+          "(R-INVALIDATE); tree and brute-force broad phase take the bodies in the same order, bind the same triple and share "
+          "the aabb_overlap predicate (R-SAMEPREDICATE). The frame of the wrench transform (finding F6) and the body-frame "
+          "AABB are NOT yet covered by a rule in this build. Does not decide the 5% discretisation statements.", "DESIGN.md §4 C16")
+    claim("C19", "loop exit-discipline classification (engine E4) over the ast of the narrow-phase modules",
+          "Decides the exit discipline only: every loop reachable in the narrow-phase modules is CAP (counter vs bound "
+          "advanced on every path; continue paths must clear a one-way flag), STRUCT, PROGRESS (non-strict non-improvement "
+          "exit with the carried value updated, followed into the state-returning helper) or TOLERANCE (mpr._refine_portal: "
+          "exit test evaluated every iteration, termination NOT proved); anchor loops keep the class confirmed by reading. "
+          "Does not decide the bound of 1000 support evaluations, finiteness of outputs, or which exceptions can be raised.",
+          "DESIGN.md §4 C19")
+    claim("C20", "abstract interpretation of array layout/dtype/ndim against numba signatures (E1) + " + AST,
+          "Decides source-visible divergences between compiled and interpreted execution: every call of an explicitly typed "
+          "njit function from Python or lazily compiled code passes accepted ndim/dtype/layout (R-EAGER, 240 sites, UNKNOWN "
+          "count bounded); globals read by compiled code are never mutated (R-FROZEN); capacity checks dominate stores and "
+          "sentinel indices are guarded (R-GUARDSTORE, R-SENTINEL); compaction buffers are written at the counter "
+          "(R-COMPACT); inventory of 122 compiled functions. Does not decide numerical agreement nor whether numba can type a "
+          "function.", "DESIGN.md §4 C20")
+    for p in ["C01", "C02", "C03", "C04", "C06", "C08", "C09", "C10", "C11", "C12", "C13", "C18"]:
         na(p, PENDING)
     na("C17", "volumes, positivity, partition and potentials are numerical facts about generated vertex data over continuous "
               "parameters; the only static part (combinatorics of literal tables) is too small a share of the statement to "
